@@ -2,6 +2,7 @@
 has (accessors return arbitrary results) and whatever the serde-generated deserialisers return.  Property C18."""
 import re
 import z3
+import harness
 from values import Int, Bool, UNIT, Agg, Ref, Opaque, Bytes, SeqV, Future, BV, simp, concrete, fresh_name
 from engine import State, Unsupported
 import contracts as C
@@ -167,3 +168,97 @@ def replay_plan(ob):
                 cases.append({'driver': 'load', 'args': {'which': key, 'fn': fnname, 'yaml': doc}})
             return 'loaders', cases, lambda o: bool(o.get('panicked'))
     return None
+
+
+# =========================================================================== the metrics / API server section
+
+def spec_metrics_config(ck):
+    """"a configuration that is accepted (including by --test) never makes the proxy crash": the `metrics:` section is accepted by
+    MetricsServer::init (that is all --test runs) and used by MetricsServer::listen at start-up.  Both are executed on the same
+    symbolic section (cors and apiPrefix any strings of <= 6 bytes): whatever init accepts, listen must get through without a panic.
+    Contracts (library semantics, stated): http::HeaderValue::from_str fails iff the text holds a byte other than TAB, 0x20..0x7e or
+    >= 0x80; axum 0.6 Router::nest panics unless the path is empty or starts with `/` and holds no `*`."""
+    init = ck.find(lambda: ck.db.method('MetricsServer', 'init'), 'MetricsServer::init')
+    listen = ck.find(lambda: ck.db.method('MetricsServer', 'listen'), 'MetricsServer::listen')
+    fields = ck.si.structs.get('MetricsServer', [])
+    if init is None or listen is None or not fields:
+        return
+    ex = ck.engine(loop_bound=8, call_depth=8)
+    ex.benign_havoc = harness.IRRELEVANT
+    ex.no_inline = [re.compile(r'ui_service$|embedded_ui')]
+    ex.havoc_result_ok = True
+    st = State()
+    cors = Bytes.symbolic('cors', 'string')
+    prefix = Bytes.symbolic('api_prefix', 'string')
+    ex.assume(st, z3.And(z3.ULE(cors.len, BV(6, 64)), z3.ULE(prefix.len, BV(6, 64))))
+    cfg = Agg('MetricsServer', dict((i, (cors if n == 'cors' else (prefix if n == 'api_prefix' else (C.mk_option(ex, None) if n == 'ui' else Opaque(n, 'cfg_' + n))))) for i, n in enumerate(fields)))
+    cell = st.alloc(cfg)
+    ex.inputs = {'cors': cors, 'api_prefix': prefix}
+
+    def text(ctx, v):
+        for _ in range(4):
+            if isinstance(v, Ref):
+                v = ctx.ex.deref(ctx.st, v)
+        return v if isinstance(v, Bytes) else None
+
+    def header_from_str(ctx):
+        b = text(ctx, ctx.args[0])
+        if b is None:
+            return NotImplemented
+        bad = z3.Or([z3.And(z3.ULT(BV(i, 64), b.len), z3.Or(z3.And(z3.ULT(b.at(i), BV(32, 8)), b.at(i) != BV(9, 8)), b.at(i) == BV(127, 8))) for i in range(6)])
+        return Agg('Result', {}, simp(z3.If(bad, BV(1, 64), BV(0, 64))), {0: {0: Opaque('HeaderValue', 'hv')}, 1: {0: Opaque('InvalidHeaderValue', 'e')}}, ctx.ex.si.enums['Result'])
+
+    def nest(ctx):
+        b = text(ctx, ctx.args[1])
+        if b is None:
+            return NotImplemented
+        star = z3.Or([z3.And(z3.ULT(BV(i, 64), b.len), b.at(i) == BV(0x2a, 8)) for i in range(6)])
+        ok = z3.Or(b.len == BV(0, 64), z3.And(b.at(0) == BV(0x2f, 8), z3.Not(star)))
+        ctx.ex.require(ctx.st, ok, 'panic', 'axum::Router::nest: the path must start with `/` and hold no `*`')
+        return Opaque('Router', 'nested')
+    ex.overrides.append((re.compile(r'HeaderValue::from_str$'), header_from_str))
+    ex.overrides.append((re.compile(r'Router(?:::<.*>)?::nest$'), nest))
+    label = 'C18/metrics/a-section-that-init-accepts-does-not-panic-at-start-up'
+    accepted = []
+    for s in ex.call_fn(st, init, [Ref(cell, (), True)]):
+        if s.status == 'returned' and not _is_err(s.ret):
+            okc, _ = _okp(s.ret)
+            try:
+                ex.assume(s, okc)
+            except Exception:
+                continue
+            s.frames, s.status = [], 'running'
+            accepted.append(s)
+    allf = []
+    n0 = len(ex.findings)
+    for s in accepted:
+        outs = run_async(ex, s, listen, [Ref(cell, ()), Ref(s.alloc(Opaque('GlobalState', 'state')), ())])
+        allf += [o for o, _ in outs]
+    for f in ex.findings[n0:]:
+        f.site = label
+        f.target = 'MetricsServer::init + listen'
+    for k in [k for k in ex.site_samples if k != label and ('listen' in k or 'nest' in k)]:
+        v = ex.site_samples.pop(k)
+        if v.get('status') == 'violated' or label not in ex.site_samples:
+            ex.site_samples[label] = v
+    if not accepted:
+        ck.add('C18/metrics/reachability', 'vacuous', 'MetricsServer::init accepted nothing in the model')
+    def plan(ob):
+        if (ob.target or '') != 'MetricsServer::init + listen':
+            return None
+        # the offending setting alone, everything else at a harmless value
+        pairs = (('*', 'api'), ('*', '/a*')) if 'nest' in (ob.detail or '') else (('a\nb', '/api'), ('a\x7fb', '/api'))
+        return 'locks', [{'driver': 'metrics_section', 'args': {'cors': c, 'api_prefix': p_}} for c, p_ in pairs], lambda o: o.get('init_ok') is True and o.get('listen_panicked') is True
+    ck.plans.append(plan)
+    ck.absorb(ex, 'MetricsServer::init + listen', allf)
+    ck.bounds['metrics-section'] = 'cors and apiPrefix any strings of <= 6 bytes; ui absent; bind any'
+
+
+def _is_err(r):
+    from specs.codec import _is_err_concrete
+    return _is_err_concrete(r)
+
+
+def _okp(r):
+    from specs.codec import _ok_payload
+    return _ok_payload(r)
